@@ -19,7 +19,7 @@ FILES = {
     "src/avl.c": ["C01", "C03"], "src/rbt.c": ["C02", "C03"],
     "include/a/avl.h": ["C01", "C03"], "include/a/rbt.h": ["C02", "C03"],
     "src/vec.c": ["C04", "C07"], "src/buf.c": ["C04", "C07"], "include/a/vec.h": ["C04"], "include/a/buf.h": ["C04"],
-    "src/a.c": ["C04", "C07"],
+    "src/a.c": ["C04", "C07", "C16"],
     "include/a/list.h": ["C05"], "include/a/slist.h": ["C05"], "src/que.c": ["C05", "C07"], "include/a/que.h": ["C05"],
     "src/str.c": ["C06", "C07", "C18"], "include/a/str.h": ["C06"], "src/utf.c": ["C18", "C06"],
     "src/pid.c": ["C12"], "src/pid_fuzzy.c": ["C12"], "src/pid_neuro.c": ["C12"],
